@@ -39,6 +39,18 @@ B_ORACLES = {
 for _p, _o in B_ORACLES.items():
     CHECKS[_p] = ('exploration', 'Engine B', B_TEXT + _o, B_NOTE, B_TECH, '5, 7 ' + _p)
 
+C_NOTE = 'trusted: the reference model written from the statement (listed under assumptions in the evidence), small-scope bounds of the enumerated product'
+C_TECH = 'bounded-exhaustive enumeration of a finite input product against a reference model'
+CHECKS.update({
+    'C10': ('model_checking', 'Engine A', 'every state reachable through attach/re-parent/link operations in small universes (2-3 tasks around WBS X, one task in WBS Y, optionally sharing an id) is enumerated by explicit-state BFS on the real objects; in each state clone() and subtree(R) for every antichain R are executed and compared clause by clause, then 14 kinds of follow-up mutation are applied to copy and source to check independence', A_NOTE, 'explicit-state model checking (BFS) supplying all reachable states; clone/subtree and follow-up mutations executed in each', '4, 7 C10'),
+    'C12': ('exploration', 'Engine C', 'all forests with <=4 tasks x all link sets (links on leaves and summaries) x per-leaf estimate/spent menus (dyadic and decimal) compared with a longest-path reference computed in exact rationals', C_NOTE, C_TECH, '6, 7 C12'),
+    'C13': ('exploration', 'Engine C', 'layered content model (hierarchy x ids incl. 0 and negatives x links; adversarial strings in every text position and in pairs; dates/numbers/flags) through write_csv/read_csv: round-trip meaning, second/third generation byte fixpoint, and six hand-written layouts from an independent writer', C_NOTE, C_TECH, '6, 7 C13'),
+    'C17': ('exploration', 'Engine C', 'all calendar expressions up to nesting depth 1 (quick) / 2 (thorough) over weekly, dated, fixed calendars and scalars x 48 instants against a reference evaluator; availability search over starts x directions x horizons; 13 illegal definitions must raise RuntimeError', C_NOTE, C_TECH, '6, 7 C17'),
+    'C18': ('exploration', 'Engine C', 'every single filter (all suffixes x attributes x value alphabet) and pairs of filters on 4-task populations with present/None/absent attributes against a reference predicate; bulk assignment and remove_all (WBS, roots, children) touch exactly the matches', C_NOTE, C_TECH, '6, 7 C18'),
+    'C19': ('exploration', 'Engine C', 'forward-scheduled WBSs (all shapes <=3 tasks) rendered by MermaidGantt, MermaidNetwork and DhtmlxGantt with an adversarial name on each task in turn; the documents are parsed by consumer-side parsers (html.parser, gantt line grammar, flowchart tokeniser, JSON) and compared with the tasks and with the rendering under a harmless name', C_NOTE, C_TECH, '6, 7 C19'),
+    'C20': ('exploration', 'Engine C', 'text sheets of all hierarchies <=4 tasks x names/values of varying length x field selections x children on/off x themes x entry points, parsed back into cells by splitting on colour escapes; usage tables of scheduled inputs', C_NOTE, C_TECH, '6, 7 C20'),
+})
+
 ENGINES = [
     {'name': 'Engine A', 'path': 'vf/explore/bfs.py', 'serves_properties': ['C01', 'C05', 'C11', 'C15', 'C16', 'C10', 'C18'],
      'kind_free_text': 'explicit-state BFS over the real mutation API with lock-step reference semantics'},
